@@ -400,15 +400,27 @@ Definition src_carried (c : cframe) : bool :=
     match nal_type (c_pay c) with Some t => negb (is_paramset_type t) | None => false end
   else match c_pay c with [] => false | _ => true end.
 
-Definition ok_mux (sps pps : bytes) (a : asc) (cs : list cframe) (out : bytes) : bool :=
+Definition asrc_unit_ok (a : asc) (af : aframe) (u : tsunit) : bool :=
+  src_unit_ok (a_sps af) (a_pps af) a (a_c af) u.
+Definition asrc_carried (af : aframe) : bool := src_carried (a_c af).
+
+(* [afs]: the source frames, each with the parameter sets current when it was pushed *)
+Definition ok_muxa (a : asc) (afs : list aframe) (out : bytes) : bool :=
   match ts_units out with
   | Some (pat :: pmt :: us) =>
-      psi_ok pat pmt && units_ok (src_unit_ok sps pps a) (filter src_carried cs) us
+      psi_ok pat pmt && units_ok (asrc_unit_ok a) (filter asrc_carried afs) us
   | _ => false
   end.
+
+Definition ok_mux (sps pps : bytes) (a : asc) (cs : list cframe) (out : bytes) : bool :=
+  ok_muxa a (annotate sps pps (map EvFrame cs)) out.
 
 Definition wf_cframe (c : cframe) : bool :=
   ns_ok (c_pts c) &&
   if c_video c then ns_ok (c_dts c) && match c_pay c with [] => false | _ => true end
   else zlen (c_pay c) + 7 <? 8192.
+Definition wf_aframes (a : asc) (afs : list aframe) : bool :=
+  asc_plain a && forallb (fun af => wf_cframe (a_c af)) afs.
+Definition wf_mux_ev (sps0 pps0 : bytes) (a : asc) (evs : list mevent) : bool :=
+  wf_aframes a (annotate sps0 pps0 evs).
 Definition wf_mux (a : asc) (cs : list cframe) : bool := asc_plain a && forallb wf_cframe cs.
